@@ -195,6 +195,14 @@ def sweep_seed(job):
     ctx._pop()
     out["stats"]["p_stmts"] = ctx.r1.nstmts
     out["stats"]["p_obls"] = len(ctx.r1.obls)
+    if "C17" in props and not job.get("chain"):
+        rec0 = {"op": "(as written)", "args": "()", "enc": [], "status": "accepted", "q_src": str(p)}
+        try:
+            c17_check(p, bounds, rec0, tier, rng, force_solver=True)
+        except Exception as ex:
+            rec0["status"] = "harness_error"
+            rec0["why"] = f"{type(ex).__name__}: {ex}"
+        out["instances"].append(rec0)
     live = [p] + [sp for sp in env["SUBPROCS"]]
     n_attempt = 0
     for opname in sorted(ops):
@@ -286,6 +294,8 @@ def _one_instance(ctx: ProcCtx, p, op, opname, args, props, live, rec, env, boun
         return
     q_ir = q._loopir_proc
     rec["q_src"] = str(q)
+    if "C17" in props:
+        c17_check(q, bounds, rec, tier, rng)
     is_eqv, ign = ignore_cfg_of(p_ir, q_ir)
     rec["reported_cfg"] = sorted(f"{a}.{b}" for a, b in ign)
     rec["tracked_eqv"] = bool(is_eqv)
@@ -368,6 +378,49 @@ def _one_instance(ctx: ProcCtx, p, op, opname, args, props, live, rec, env, boun
                     p_compiles = False
                 rec["c04_p_compiles"] = p_compiles
                 rec["c04_compile_msg"] = str(cex_)[:300]
+
+
+def c17_check(q, bounds, rec, tier, rng, force_solver=False):
+    """print -> parse -> compare (C17)"""
+    from .reparse import reparse, alpha_mismatch, ReparseError
+
+    q_ir = q._loopir_proc
+    if check_wellformed(q_ir):
+        rec["c17"] = "skipped_illformed"  # not a procedure: C04's finding, nothing to print faithfully
+        return
+    try:
+        q2 = reparse(q)
+    except ReparseError as ex:
+        msg = str(ex)
+        if msg.startswith("ParseError") or msg.startswith("SyntaxError") or msg.startswith("NameError"):
+            rec["c17"] = "reparse_failed"
+        else:
+            # the text parses but the front end's type/bounds/effect checks refuse the
+            # (scheduled) program: stricter acceptance, not a printing fault
+            rec["c17"] = "frontend_rejects"
+        rec["c17_detail"] = msg
+        return
+    q2_ir = q2._loopir_proc
+    mis = alpha_mismatch(q_ir, q2_ir)
+    rec["c17_alpha"] = mis
+    rec["c17_text_equal"] = str(q2) == str(q)
+    if mis is not None or force_solver or tier == "thorough" or rng.random() < 0.2:
+        try:
+            cq = ProcCtx(q_ir, bounds, timeout_ms=20000, tag="r")
+            v = cq.compare(q2_ir)
+            rec["c17_behaviour"] = v.status
+            rec["c17_queries"] = v.queries
+            rec["c17_trivial"] = v.trivially_equal
+            if v.status != "equal":
+                rec["c17_detail"] = v.detail
+            if v.cex:
+                rec["c17_cex"] = cex_to_json(v.cex)
+        except (Unsupported, TooBig, L.IllFormed) as ex:
+            rec["c17_behaviour"] = "skipped"
+            rec["c17_detail"] = f"{type(ex).__name__}: {ex}"
+    rec["c17"] = "ok" if (mis is None and rec["c17_text_equal"] and rec.get("c17_behaviour", "equal") in ("equal", "skipped")) else "mismatch"
+    if rec["c17"] == "mismatch":
+        rec["c17_reparsed"] = str(q2)
 
 
 def strip(rec):
